@@ -8,7 +8,7 @@ PID = 'C08'
 
 
 def _nontrivial(t):
-    pol = [n for n, d in t['prog']['tasks'].items() if d['retry'] or d['waitBefore'] or d['waitAfter'] or d['timeout'] or d['failOn']]
+    pol = [n for n, d in t['prog']['tasks'].items() if d['retry'] or d['waitBefore'] or d['waitAfter'] or d['timeout'] or d['failOn'] or d['pauseBefore']]
     ran = [x['sid'] for x in t['steps'][-1]['obs']['tk'] if x['name'] in pol]
     return ran or None
 
@@ -17,12 +17,26 @@ def run(tier):
     rnd = random.Random(common.seed() + 8)
     n = 160 if tier == 'quick' else 3000
     jobs = ec.random_jobs(rnd, n, label='pol', gen_kw=dict(partial_joins=False, p_retry=0.3, p_policy=0.4, p_cmd=0.02, p_err=0.35))
+    # pause-before (alone, or together with wait-before / another policy): the operator lets timers fire, or not,
+    # and resumes whenever the run has come to rest
+    pj = ec.random_jobs(rnd, n // 4, label='pausebefore', gen_kw=dict(partial_joins=False, p_retry=0.15, p_policy=0.3, p_cmd=0.0, p_err=0.25,
+                                                                      p_pause=0.35))
+    for j in pj:
+        npb = sum(1 for d in j['prog'].tasks.values() if d.get('pause-before'))
+        ops = []
+        for _ in range(npb + 1):
+            if rnd.random() < 0.5:
+                ops.append(dict(at=10 ** 6, op='wait'))
+            ops.append(dict(at=10 ** 6, op='resume'))
+        j['ops'] = ops
+        j['max_steps'] = 600
+    jobs += pj
     for k, j in enumerate(jobs):
         if k % 3 == 0:
             j['policy'] = 'time_races'
     return ec.run_property(PID, tier, jobs,
                            'generated programs whose tasks carry retry (count 1-2, delay 0/1), wait-before, wait-after, timeout (1-3 s, literal or '
-                           'expression) and fail-on policies with per-attempt outcomes from the oracle, under a virtual clock; one third of the '
+                           'expression), fail-on and pause-before (also combined with wait-before; resumed by the operator at rest) policies with per-attempt outcomes from the oracle, under a virtual clock; one third of the '
                            'runs lets timers fire ahead of pending results; non-trivial = distinct runs in which a task with a policy ran',
                            _nontrivial)
 
